@@ -1678,7 +1678,7 @@ func (v *VM) execute(ctx *Context, op opcode.Opcode, parameter []byte) (err erro
 
 	case opcode.CALLA:
 		ptr := v.estack.Pop().Item().(*stackitem.Pointer)
-		if ptr.ScriptHash() != ctx.ScriptHash() {
+		if ptr.ScriptHash() != ctx.ScriptHash() || !ptr.IsFromScript(ctx.sc.prog) {
 			panic("invalid script in pointer")
 		}
 
